@@ -94,6 +94,8 @@ pub fn decode_by_metadata<T: Lay>(shape: Shape, inp: &mut SimInput) -> Result<Ve
         Shape::Pair => MetaType::new::<(T, T)>(),
         Shape::Tup3 => MetaType::new::<(u8, T, u16)>(),
         Shape::Boxed => MetaType::new::<Box<T>>(),
+        Shape::Rec => MetaType::new::<crate::lay::Rec<T>>(),
+        Shape::Sum => MetaType::new::<crate::lay::Sum<T>>(),
     };
     let (reg, id) = registry_for(meta);
     let mut out = Vec::new();
@@ -101,6 +103,12 @@ pub fn decode_by_metadata<T: Lay>(shape: Shape, inp: &mut SimInput) -> Result<Ve
     if shape == Shape::Tup3 && out.len() == 3 {
         // same order as the codec reader reports: value, head, tail
         out.swap(0, 1);
+    }
+    if shape == Shape::Rec && out.len() >= 3 {
+        // wire order is tag, val, (opt), tail; the codec reader reports val, (opt), tag, tail
+        let tag = out.remove(0);
+        let at = out.len() - 1;
+        out.insert(at, tag);
     }
     Ok(out)
 }
